@@ -74,6 +74,9 @@ def run_case(ctx, Model, case):
         from .common import h64
         case['caller_errstate'] = [None, None, None, None, 'ignore', 'raise', 'warn', {'over': 'ignore', 'invalid': 'raise', 'divide': 'warn'},
                                    {'over': 'raise', 'invalid': 'ignore', 'divide': 'ignore'}, {'over': 'warn', 'invalid': 'ignore', 'divide': 'raise'}][h64(['es', case]) % 10]
+    if 'endogenous' not in case:
+        from .common import h64
+        case['endogenous'] = [['A'], ['B'], []][h64(['endo', case]) % 3] if not case.get('offset') and h64(['endo?', case]) % 5 == 0 else None
     if 'hook_binding' not in case:
         from .common import h64
         case['hook_binding'] = 'instance' if case['model_class'] == 'plain' and h64(['hb', case]) % 4 == 0 else 'class'
